@@ -582,7 +582,8 @@ def finish_case(ref, listed, carried, cols, alns, threshold=100000, header=((0, 
         # made when every primary alignment of the name is certain to be present: it fully covers, with a clean
         # window, at least one variant.
         supps = [a for a in g if a.get("flag", 0) & 0x800]
-        supp_ok = all(any(x[1] == "clean" for x in a["t"].values()) for a in prims)
+        gts = o.get("gt")
+        supp_ok = all(any(x[1] == "clean" and (gts is None or len(gts[i]) > 0) for i, x in a["t"].items()) for a in prims)
         for idx, v in enumerate(listed):
             if supps and not supp_ok and any(idx in a["touch"] for a in supps):
                 continue
